@@ -37,7 +37,7 @@ META = {
     "stubs": ["interp1d.__call__ -> interp1d._evaluate on the object array (scipy's argument validation skipped)",
               "sqrt / pow uninterpreted"],
     "assumptions": ["reals instead of doubles", "queries: symbolic scalars and arrays of length <= 3",
-                    "mixtures of 2-3 components with positive fractions / molar masses", "pump polynomials of degree <= 3"],
+                    "mixtures of 2-3 (thorough: 2-5) components with positive fractions / molar masses", "pump polynomials of degree <= 3 (thorough: <= 5)", "thorough: 12 generated user tables with 2-9 knots"],
     "bound": {"quick": "10 tabulated properties covering all 8 library fluids, every table interval + both extrapolation sides; property "
                        "classes on symbolic parameters; 2-3 component mixtures; pump degree 1-3",
               "thorough": "all 8 library fluids x 3 tabulated properties; rest as quick"},
@@ -65,8 +65,13 @@ def interp_worker(job):
     from pandapipes.properties.fluids import call_lib
     H.install(symbolic_constants=False)
     _install_interp()
-    fl = call_lib(job["fluid"])
-    prop = fl.all_properties[job["prop"]]
+    if job.get("table"):
+        # user-defined tabulated property (thorough tier): generated knots
+        from pandapipes.properties.fluids import FluidPropertyInterExtra
+        prop = FluidPropertyInterExtra(np.array(job["table"][0], dtype=float), np.array(job["table"][1], dtype=float))
+    else:
+        fl = call_lib(job["fluid"])
+        prop = fl.all_properties[job["prop"]]
     xs, ys = np.asarray(prop.prop_getter.x, dtype=float), np.asarray(prop.prop_getter.y, dtype=float)
     viol = []
 
@@ -95,7 +100,7 @@ def interp_worker(job):
         r, m, how = D.check(list(p.path), goal, sample="%s.%s path %d (interval %d)" % (job["fluid"], job["prop"], pi, i), timeout_ms=8000)
         if r == 'sat':
             viol.append({"fingerprint": "C19/interp", "detail": {"job": job["name"], "interval": i},
-                         "replay": {"kind": "interp", "fluid": job["fluid"], "prop": job["prop"], "x": (m or {}).get("x", xv)}})
+                         "replay": {"kind": "interp", "fluid": job["fluid"], "prop": job["prop"], "table": job.get("table"), "x": (m or {}).get("x", xv)}})
         elif r == 'unknown':
             job.setdefault("_inconclusive", []).append("interval %d" % i)
     # knots and shape (evaluated on the symbolic machinery with concrete knots)
@@ -103,23 +108,27 @@ def interp_worker(job):
     for k in range(len(xs)):
         n_ev += 1
         v = float(prop.get_at_value(float(xs[k])))
-        if abs(v - ys[k]) > 1e-12 * (1 + abs(ys[k])):
+        if abs(v - ys[k]) > 1e-9 * (1 + abs(ys[k])):
             viol.append({"fingerprint": "C19/knot", "detail": {"job": job["name"], "knot": k},
-                         "replay": {"kind": "interp", "fluid": job["fluid"], "prop": job["prop"], "x": float(xs[k])}})
+                         "replay": {"kind": "interp", "fluid": job["fluid"], "prop": job["prop"], "table": job.get("table"), "x": float(xs[k])}})
     for shape in ((2,), (3,), (2, 2)):
         n_ev += 1
         q = np.full(shape, float(xs[0]) + 1.0)
         if np.shape(prop.get_at_value(q)) != shape:
             viol.append({"fingerprint": "C19/shape", "detail": {"job": job["name"], "shape": shape},
-                         "replay": {"kind": "interp", "fluid": job["fluid"], "prop": job["prop"], "x": float(xs[0]) + 1.0}})
+                         "replay": {"kind": "interp", "fluid": job["fluid"], "prop": job["prop"], "table": job.get("table"), "x": float(xs[0]) + 1.0}})
     r = finish_worker(job, ex, viol, evaluated=n_ev)
     return r
 
 
 def replay_interp(rs):
     from pandapipes.properties.fluids import call_lib
-    fl = call_lib(rs["fluid"])
-    prop = fl.all_properties[rs["prop"]]
+    if rs.get("table"):
+        from pandapipes.properties.fluids import FluidPropertyInterExtra
+        prop = FluidPropertyInterExtra(np.array(rs["table"][0], dtype=float), np.array(rs["table"][1], dtype=float))
+    else:
+        fl = call_lib(rs["fluid"])
+        prop = fl.all_properties[rs["prop"]]
     xs, ys = np.asarray(prop.prop_getter.x, dtype=float), np.asarray(prop.prop_getter.y, dtype=float)
     xv = float(rs["x"])
     i = int(np.clip(np.searchsorted(xs, xv), 1, len(xs) - 1))
@@ -462,9 +471,17 @@ def jobs(tier, seed):
         for prop in ("density", "viscosity", "heat_capacity"):
             out.append({"name": "interp/%s/%s" % (f, prop), "kind": "interp", "fluid": f, "prop": prop})
     out.append({"name": "classes", "kind": "classes"})
-    for n in (2, 3):
+    if tier == "thorough":
+        import random
+        rng = random.Random(1900 + seed)
+        for i in range(12):
+            k = rng.choice([2, 3, 4, 6, 9])
+            xs_ = sorted(rng.sample([-40.0, -5.5, 0.0, 1.25, 3.0, 17.0, 250.0, 273.15, 300.0, 333.3, 400.0, 1e3, 5e4], k))
+            ys_ = [rng.choice([-2.5, 0.0, 0.001, 1.0, 4.2, 998.0, 1e5]) * (1 + 0.1 * j) for j in range(k)]
+            out.append({"name": "interp/user%d" % i, "kind": "interp", "fluid": "user", "prop": "table%d" % i, "table": [xs_, ys_]})
+    for n in ((2, 3) if tier == "quick" else (2, 3, 4, 5)):
         out.append({"name": "mixture/n%d" % n, "kind": "mixture", "n": n})
-    for deg in (1, 2, 3):
+    for deg in ((1, 2, 3) if tier == "quick" else (1, 2, 3, 4, 5)):
         out.append({"name": "pump/deg%d" % deg, "kind": "pump", "deg": deg})
     out.append({"name": "data", "kind": "data"})
     return out
